@@ -29,6 +29,12 @@ def bodies(rng, tier):
     out += ['{"mode":"ok","n":"200"}', '{"mode":"ok","n":1e40}', '{"n":"x"}', '{"mode":"ok","tags":"notalist"}', '{"mode":"ok","sub":{"x":"s"}}', '{"mode":5}',
             '{"mode":"ok","n":1.5}', '{"mode":"ok","tags":[1,2]}', '{"mode":"ok","sub":[]}', '{"mode":"ok","n":null,"tags":null}', '{"mode":"ok","n":7,"tags":["a"],"sub":{"x":1}}',
             '{"name":"John","email":"john@example.com","age":"x"}', '{"name":["John"],"email":"john@example.com"}']
+    # rejected values that are echoed in the validation message: format verbs, line breaks, markup, quotes, controls, long text -
+    # the body of the response carries the message verbatim
+    for v in ("50%off", "%s", "%d%v%x", "100%sure@", "a%20b%2Fc d", "%!s(MISSING)", "%%", "%", "%[1]s", "%-5d|", "line1\nline2", "cr\r\nlf", "<script>alert(1)</script>",
+              "a&b<c>d", 'q"uote\'s', "back\\slash", "tab\there", "nul\x00byte", "\x7f\x1b[31m", "\u00e9\u65e5\u672c", "\U0001F600", "x" * 3000, " lead and trail "):
+        out.append(json.dumps({"name": "John", "email": v}))
+        out.append(json.dumps({"name": "", "email": v}, ensure_ascii=False))
     for mode in ("ok", "fail", "canceled", "deadline", "wrapped-canceled", "wrapped-deadline", "empty-message", "zzz"):
         out.append(json.dumps({"mode": mode}))
         out.append(json.dumps({"mode": mode, "name": "John", "email": "john@example.com"}))
